@@ -260,7 +260,10 @@ struct EncRun {
       if (at >= 2) { vorbis_comment_init(&vc); have_vc = true; vorbis_comment_add_tag(&vc, "A", "b"); ogg_packet a, b, c;
         int nh = 1 + (int)er->i("hdrs", 0);   // headerout may be called again on the same state (each call hands out fresh packets)
         for (int k = 0; k < nh; k++) { int hr = vorbis_analysis_headerout(&vd, &vc, &a, &b, &c); h.i64(hr); h.bytes(a.packet, (size_t)a.bytes); h.bytes(b.packet, (size_t)b.bytes); h.bytes(c.packet, (size_t)c.bytes); }
-        if (nh > 1) g_stats.inc("probe.headerout_repeated"); }
+        if (nh > 1) g_stats.inc("probe.headerout_repeated");
+        // the stand-alone comment header (its buffer is the caller's, released with ogg_packet_clear) and the comment queries
+        if (er->i("chdr", 0)) { ogg_packet cp; int cr = vorbis_commentheader_out(&vc, &cp); h.i64(cr); if (cr == 0) { h.bytes(cp.packet, (size_t)cp.bytes); ogg_packet_clear(&cp); }
+          h.i64(vorbis_comment_query_count(&vc, "A")); const char *qv = vorbis_comment_query(&vc, "a", 0); h.str(qv ? qv : "(null)"); h.i64(vorbis_comment_query(&vc, "A", 1) ? 1 : 0); h.i64((int64_t)(vorbis_granule_time(&vd, 44100) * 1000)); g_stats.inc("probe.commentheader_out"); } }
       if (at >= 3) {
         Signal sig(sigr); int64_t done = 0; int64_t stop = at == 3 ? N / 2 : N;
         while (done < stop) { int k = (int)std::min<int64_t>(1024, stop - done); float **buf = vorbis_analysis_buffer(&vd, k); for (int c = 0; c < es.ch; c++) for (int i = 0; i < k; i++) buf[c][i] = sig.at(c % sigr.ch, done + i); vorbis_analysis_wrote(&vd, k); done += k;
@@ -311,9 +314,11 @@ struct EncGen {
       static const int64_t edge[] = {0, 1, 2, 3, 15, 16, 17, 31, 32, 33, 63, 64, 65, 127, 128, 129, 255, 256, 257, 511, 512, 513, 1023, 1024, 1025, 2047, 2048, 2049, 3071, 3072, 3073, 4095, 4096, 4097, 6143, 6144, 6145};
       double u = g.unit(); int64_t N = u < 0.45 ? edge[g.below(sizeof edge / sizeof edge[0])] : u < 0.8 ? g.range(1, 12000) : g.range(12000, thorough ? 200000 : 60000);
       if (ch > 8) N = std::min<int64_t>(N, 3000); else if (ch > 2) N = std::min<int64_t>(N, 120000 / ch); (void)bs1g;
-      e.set("n", N);
-      Rec &s = p.add("sched"); int part = (int)g.below(5); s.set("part", part).set("k", part == 2 ? (int64_t)g.range(1, 5000) : (int64_t)(g.chance(0.3) ? g.range(1, 64) : g.range(64, 8192))).setu("pseed", g.below(100000));
-      s.set("drain", (int64_t)g.below(3)).set("m", (int64_t)g.range(1, 40)).set("one", (int64_t)g.below(2));
+      Rec &s = p.add("sched"); int part = (int)g.below(5); s.set("part", part).set("k", part == 2 ? (int64_t)g.range(1, 5000) : (int64_t)(g.chance(0.3) ? g.range(1, 64) : g.range(64, 8192)));
+      N = std::min<int64_t>(N, 40000 * std::max<int64_t>(1, s.i("k")));   // at most ~40 000 writes per run (sample-at-a-time submission of minutes of audio is slow, not interesting, and looks like a loop to the watchdog)
+      for (auto &r : p.recs) if (r.type == "enc") r.set("n", N);   // (`e` does not survive p.add)
+      p.recs.back().setu("pseed", g.below(100000));
+      p.recs.back().set("drain", (int64_t)g.below(3)).set("m", (int64_t)g.range(1, 40)).set("one", (int64_t)g.below(2));
       int pol = (int)g.below(6); p.add("mux").set("pol", pol).set("k", pol == 1 ? (int64_t)g.range(1, 12) : pol == 4 ? (int64_t)g.range(1, 6) : pol == 5 ? (int64_t)g.range(200, 3000) : 4).set("serial", (int64_t)g.below(1 << 30));
       p.add("file").set("rdpol", (int64_t)g.below(5)).set("rdk", (int64_t)g.range(1, 3000)).setu("rdseed", g.below(100000));
     } else if (c.prop == "C14") {
@@ -339,6 +344,7 @@ struct EncGen {
       int ch = (int)e.i("ch");
       if (g.chance(0.25)) e.set("multi", (int64_t)g.range(1, 2));
       if (g.chance(0.2)) e.set("hdrs", (int64_t)g.range(1, 2));
+      if (g.chance(0.25)) e.set("chdr", 1);
       e.set("abandon", (int64_t)g.below(5)).set("twice", (int64_t)g.below(2)).set("n", (int64_t)(ch > 8 ? g.range(0, 3000) : g.range(0, 20000))).set("poison", (int64_t)g.below(5)).setu("pseed", g.below(100000));
     }
     return p;
